@@ -226,6 +226,10 @@ async def _scenario(loop, sc, k, intervention, after=None):
             # server.close(): closing leaves no task behind, asleep or not.)
             await asyncio.sleep(30)
             await loop.settle()
+        if spy.delay_fn is not None:
+            # a backend whose calls take (virtual) time: finite - let the calls under way return
+            await asyncio.sleep(5)
+            await loop.settle()
         if sc.manager_factory is not None:
             # a user manager of one's own takes its (finite) time, like a backend: let its calls return
             await asyncio.sleep(2)
@@ -236,6 +240,7 @@ async def _scenario(loop, sc, k, intervention, after=None):
         close_task = state.get("close_task")
         if close_task is not None:
             res["close_done"] = close_task.done()
+            res["at_close_return"] = state.get("at_close_return")
         res["transcript"] = ctl.transcript
         res["notes"] = ctl.notes
         res["ledger"] = ledger(wd)
@@ -317,6 +322,18 @@ async def _close_probe(wd, state):
     live = [t for t in wd.net.all_transports if t.name.startswith("s") and getattr(t, "port", None) == wd.port and not t.closing and not t.closed]
     state["undispatched_at_close"] = len([t for t in live if t not in registered])
     await wd.server.close()
+    # "closing the server ... leaves no task ... of the server behind": at the very moment close() comes back, before
+    # anything else runs - tasks whose code is aioftp's and that are not finished, files still open, sessions still
+    # in the table
+    left = []
+    for t in asyncio.all_tasks(wd.loop):
+        if t.done():
+            continue
+        co = t.get_coro()
+        code = getattr(co, "cr_code", None) or getattr(co, "gi_code", None)
+        if code is not None and "/aioftp/" in code.co_filename:
+            left.append(getattr(co, "__qualname__", str(co)))
+    state["at_close_return"] = {"tasks": sorted(left), "connections": len(wd.server.connections), "open_files": sorted(v[0] for v in wd.spy.open_files.values())}
 
 
 def cut_vanish_control(ctl, script_task, state):
